@@ -95,12 +95,12 @@ def check(ctx):
     _expr_token(ctx)
 
 
-def name_overrides(ctx):
+def name_overrides(ctx, prefixes=("dask/dataframe/dask_expr/", "dask/array/_array_expr/", "dask/_expr.py"), floor=25):
     """N1: every `_name` override of an expression class carries the deterministic token."""
     model = ctx.model
     n_names = 0
     for rel in model.package_files("dask"):
-        if not (rel.startswith("dask/dataframe/dask_expr/") or rel.startswith("dask/array/_array_expr/") or rel == "dask/_expr.py"):
+        if not any(rel.startswith(p_) for p_ in prefixes):
             continue
         mod = model.module(rel)
         for qn, c in mod.classes():
@@ -119,7 +119,7 @@ def name_overrides(ctx):
                         bad.append(u[:70])
                     ctx.ob("N1.name-has-token", st, f"{qn}._name carries the deterministic token", not bad and bool(rets), "" if not bad else f"name without a token: {bad}: distinct expressions of this class share keys")
     ctx.count("name_overrides", n_names)
-    ctx.floor("name_overrides", 25, "`_name` overrides in expression classes")
+    ctx.floor("name_overrides", floor, "`_name` overrides in expression classes")
 
 
 
